@@ -80,6 +80,9 @@ type epT struct {
 	enc func(der []byte) []byte
 	// pairLimit overrides the 2-deviation window (0 = default rule; <0 = no pair enumeration).
 	pairLimit int
+	// shortMax1 restricts the all-short-strings enumeration to length <= 1 (entry points that run a pairing for
+	// every input whatever its content, e.g. a key-exchange confirmation whose hostile argument is only compared).
+	shortMax1 bool
 	// noShort3 etc. are derived from fast.
 }
 
@@ -384,8 +387,19 @@ func must0(err error) {
 
 var nestProbes = []string{"der/nest=100", "der/nest-indef-open=100", "der/nest-indef=100", "der/nest=10000", "der/nest-indef-open=10000", "der/nest-indef=10000"}
 
+var nestMemo map[string][]byte
+
+// nestProbe returns the engine's deep-nesting probe of that name (one enumeration pass per process).
 func nestProbe(name string) []byte {
-	return engine.FindMutant([]byte{0x05, 0x00}, engine.MutOpt{DER: true, NoTrunc: true, NoExtend: true}, name)
+	if nestMemo == nil {
+		nestMemo = map[string][]byte{}
+		engine.EachMutant([]byte{0x05, 0x00}, engine.MutOpt{DER: true, NoTrunc: true, NoExtend: true}, func(desc string, m []byte) {
+			if isNest(desc) {
+				nestMemo[desc] = append([]byte{}, m...)
+			}
+		})
+	}
+	return nestMemo[name]
 }
 
 func isNest(desc string) bool { return strings.HasPrefix(desc, "der/nest") }
@@ -424,12 +438,16 @@ func runEP(c *engine.Ctx, e *epT) {
 		return
 	}
 	// all strings of length <= 2
-	c.Case(e.name+"/short<=2", func(t *engine.T) {
+	shortMax := 2
+	if e.shortMax1 {
+		shortMax = 1
+	}
+	c.Case(fmt.Sprintf("%s/short<=%d", e.name, shortMax), func(t *engine.T) {
 		x := newCx(t, e)
-		n := engine.EachShort(2, func(b []byte) { x.run("short", b) })
+		n := engine.EachShort(shortMax, func(b []byte) { x.run("short", b) })
 		x.finish("-", n)
 	})
-	if !quick && e.fast {
+	if !quick && e.fast && !e.shortMax1 {
 		for chunk := 0; chunk < 16; chunk++ {
 			lo, hi := chunk*16, chunk*16+15
 			c.Case(fmt.Sprintf("%s/short=3/b0=%02x-%02x", e.name, lo, hi), func(t *engine.T) {
@@ -564,8 +582,16 @@ func runEP(c *engine.Ctx, e *epT) {
 }
 
 func (Prop) Run(c *engine.Ctx) {
+	// C13_DEV_FILTER (development aid only): restrict the run to entry points whose name contains the string.
+	filter := os.Getenv("C13_DEV_FILTER")
 	for _, e := range allEPs() {
+		if filter != "" && !strings.Contains(e.name, filter) {
+			continue
+		}
 		runEP(c, e)
+	}
+	if filter != "" {
+		c.Case("dev-filter-active", func(t *engine.T) { t.Eval(1); t.Cap("C13_DEV_FILTER=" + filter + ": partial run, not evidence") })
 	}
 }
 
